@@ -19,6 +19,7 @@ INITS = {
     "int0": (0, "inc"), "tuple": (T(), "append"), "list": ([], "append"), "dict": ({"n": 0, "k": [1, T(2)]}, "dictinc"),
     "decimal": ({"$t": "dec", "v": "1.10"}, "id"), "none": (None, "id"), "empty-str": ("", "id"),
     "nested": (T(1, [2, {"a": None}]), "append"),
+    "sentinel-none": ({"phase": "submitted"}, "nonecycle"),
     "dict-inplace": ({"n": 0, "k": [1]}, "dictinc-inplace"), "list-inplace": ([], "append-inplace"), "bytes": ({"$t": "bytes", "v": "00ff"}, "id"), "bool": (True, "id"),
 }
 DECIDES = {
@@ -33,7 +34,7 @@ def programs(tier):
     out = []
     for iname, (init, fn) in INITS.items():
         for dname, decide in DECIDES.items():
-            if quick and iname not in ("int0", "tuple", "dict", "dict-inplace", "list-inplace") and dname not in ("c1-stop", "c3-c1-stop"):
+            if quick and iname not in ("int0", "tuple", "dict", "dict-inplace", "list-inplace", "sentinel-none") and dname not in ("c1-stop", "c3-c1-stop"):
                 continue
             op = {"k": "wfc", "init": init, "check": {"fn": fn}, "decide": decide}
             meta = {"init": iname, "decide": dname, "path": [1], "npolls": len([x for x in decide if x != "stop"]) + 1,
@@ -213,7 +214,7 @@ def run(ctx):
     cov["traces_validated_against_impl"] += n
     cov["observations"] = notes
     cov["bounds"] = ("initial states {0, (), [], nested dict, Decimal, None, '', nested tuple, bytes, bool, dict/list mutated in place} x check functions "
-                     "{increment, append, dict update, identity, in-place dict update, in-place list append} x 6 decision tables over continue(0/1/3)/stop with <=4 polls "
+                     "{increment, append, dict update, identity, in-place dict update, in-place list append, None for two polls then a record} x 6 decision tables over continue(0/1/3)/stop with <=4 polls "
                      "(quick: full product for 3 states, 2 tables for the rest) x every crash point (pairs in thorough), plus the "
                      "operation inside a parallel branch next to a long-running sibling (in-process resumption), a custom "
                      "SerDes and a check that fails on poll 2; create_wait_strategy over a 675-config grid")
